@@ -105,6 +105,16 @@ func startWatchdog() {
 	if v := envInt("VERIF_RUN_TIMEOUT_S", 0); v > 0 {
 		wdTimeout = time.Duration(v) * time.Second
 	}
+	if simrt.RaceBuild {
+		// the race detector slows kernels down by an order of magnitude
+		wdTimeout *= 5
+	}
+	// the limit applies to one simulated execution, not to a run made of several
+	simrt.RunStartHook = func() {
+		if wdStart.Load() != 0 {
+			wdStart.Store(time.Now().UnixNano())
+		}
+	}
 	go func() {
 		for {
 			time.Sleep(500 * time.Millisecond)
